@@ -25,9 +25,7 @@ def main():
             continue
         meta = json.load(open(mp))
         harmless = '/harmless/' in d
-        props = list(meta.get('detected', {}).keys()) or [meta.get('property')]
-        if not harmless:
-            props = [meta['property']]
+        props = sorted(meta.get('checks', {}).keys()) if harmless else [meta['property']]
         rc, o = sh('git -C /repo apply %s' % os.path.join(d, 'patch.diff'))
         if rc != 0:
             print(name, 'PATCH DOES NOT APPLY')
@@ -42,9 +40,12 @@ def main():
                 det[p] = {'rc': rc, 'fired': rc == 1 and any(l.startswith('VIOLATION') for l in lines), 'summary': [l[:300] for l in lines[:6]], 'wall_s': round(time.time() - t0, 1)}
         finally:
             sh('git -C /repo checkout -- .')
-        meta['detected'] = det
+        if harmless:
+            meta['checks'] = {p: {'rc': v['rc'], 'alarm': v['rc'] != 0, 'summary': v['summary'][:5]} for p, v in det.items()}
+        else:
+            meta['detected'] = det
         json.dump(meta, open(mp, 'w'), indent=1)
-        fired = {p: v['fired'] for p, v in det.items()}
+        fired = {p: (v['rc'] != 0 if harmless else v['fired']) for p, v in det.items()}
         ok = (not any(fired.values())) if harmless else all(fired.values())
         if not ok:
             bad += 1
